@@ -35,8 +35,12 @@ def m_nl(ctx, case):
     from pyModeS import py_common
     f = py_common.cprNL
     prev = None
+    conv = (lambda x: x)
+    if case.get("as") == "float32":
+        import numpy as np
+        conv = np.float32
     for lat in case["lats"]:
-        r = call(f, lat)
+        r = call(f, conv(lat))
         ctx.ev()
         allowed = cpr.NL_allowed(lat)
         if r[0] != "ok":
@@ -51,7 +55,7 @@ def m_nl(ctx, case):
         if v not in allowed or not isinstance(v, int):
             ctx.violation(classify(lat), lat=lat, expected=sorted(allowed), observed=v)
         # evenness
-        r2 = call(f, -lat)
+        r2 = call(f, conv(-lat))
         ctx.ev()
         if r2 != r:
             ctx.violation("cprNL-not-even", lat=lat, plus=r[1:], minus=r2[1:])
@@ -119,6 +123,12 @@ def cases(ctx):
     for k in range(ctx.share(1500 if quick else 4000)):
         lats = sorted(rng.uniform(0, 90) for _ in range(250))
         yield "nl", {"kind": "random", "lats": lats, "sorted_abs": True}
+    # argument types: integer latitudes are real latitudes too.  (Single-precision inputs are NOT judged: the closed form
+    # evaluated in float32 legitimately flips within ~1e-6 deg of a transition - that would demand more than the statement.)
+    if ctx.mine(i):
+        yield "nl", {"kind": "ints", "lats": list(range(0, 91)), "sorted_abs": True}
+        yield "nl", {"kind": "ints", "lats": [-k for k in range(0, 91)], "sorted_abs": True}
+    i += 1
     # dense inside/around the 87 window
     for k in range(ctx.share(64)):
         lats = sorted(rng.uniform(86.998, 87.002) for _ in range(200))
